@@ -8,7 +8,7 @@ import sys
 import time
 import traceback
 
-from . import core, gen_tables, findings, digests
+from . import core, gen_tables, gen_code, findings, digests
 
 
 class Timeout(Exception):
@@ -134,12 +134,16 @@ def main(argv=None):
     theorems = [t["name"] for t in meta["theorems"]]
     proof = {"built": True, "failed_modules": [], "audit": {}, "scan": [], "log": ""}
     if not args.no_build:
-        # 1. translator: regenerate the tables from the current sources
+      # regenerate + build + audit form one critical section: concurrent checks (possibly against different copies of the
+      # sources) must not interleave their generated files
+      with core.generated_lock():
+        # 1. translator: regenerate the tables AND the translated functions from the current sources
         try:
             gen_tables.regenerate()
+            gen_code.regenerate()
         except Exception as e:  # the sources no longer parse the way the translator expects
             proof["built"] = False
-            proof["log"] = "gen_tables failed: %r" % (e,)
+            proof["log"] = "translator (gen_tables / gen_code) failed: %r" % (e,)
         # 2. build the model, the drivers and this property's theorems
         if proof["built"]:
             b = core.lake_build(list(meta["modules"]) + list(meta.get("driver_modules", [])))
